@@ -246,7 +246,26 @@ func (p c17) Run(c *fw.Case) {
 	}
 	d.root["$ref"] = "#" + fragEncode(d.pointer)
 	text := gen.Text(d.root)
-	rs, err, ok := compileDoc(c, text, nil)
+	var opts *jsonschema.ResolveOptions
+	if c.Idx%5 == 1 {
+		// the same tree served by a Loader: the pointer fragment follows a document URI, the document is loaded while the
+		// reference is being resolved, and the loaded document holds pointer references of its own
+		delete(d.root, "$ref")
+		d.root["$defs"].(map[string]any)["zz-other"] = map[string]any{"$ref": "#/$defs/T"}
+		if r.IntN(2) == 0 {
+			d.root["allOf"] = []any{map[string]any{"$ref": "#/$defs/zz-other"}}
+		}
+		ld := &mapLoader{docs: map[string]string{"http://h/t.json": gen.Text(d.root)}}
+		opts = &jsonschema.ResolveOptions{BaseURI: "http://h/root.json", Loader: ld.load}
+		ref := gen.Pick(r, []string{"http://h/t.json", "t.json", "/t.json", "./t.json"}) + "#" + fragEncode(d.pointer)
+		var rootDoc any = map[string]any{"$ref": ref}
+		if r.IntN(3) == 0 {
+			rootDoc = map[string]any{"allOf": []any{map[string]any{"$ref": ref}}, "$defs": map[string]any{"first": map[string]any{"$ref": "t.json#/$defs/zz-other"}}}
+		}
+		text = gen.Text(rootDoc)
+		c.Count("served_by_loader", 1)
+	}
+	rs, err, ok := compileDoc(c, text, opts)
 	if !ok {
 		return
 	}
